@@ -301,7 +301,7 @@ func init() {
 		Quick:    4000,
 		Thorough: 200000,
 		Gen: func(r *RNG, tier string, n int, emit func(op int, toks ...Tok)) {
-			// the packet of TestRFC8285OneByteExtensionTermianteProcessingWhenReservedIDEncountered
+			var hist [][]byte // the last well-formed wires: decoded in a row into one receiver (op 101 list)
 			for i := 0; i < n; i++ {
 				c := r.Fork(uint64(i))
 				w := genWire(c, true)
@@ -327,7 +327,7 @@ func init() {
 					ids := p.GetExtensionIDs()
 					switch {
 					case p.Version != uint8(w.version) || p.Marker != w.marker || p.PayloadType != uint8(w.pt) || p.SequenceNumber != w.seq ||
-						p.Timestamp != w.ts || p.SSRC != w.ssrc || len(p.CSRC) != len(w.csrc) || p.Padding != w.pad || p.Extension != (w.kind != 0):
+						p.Timestamp != w.ts || p.SSRC != w.ssrc || !u32Equal(p.CSRC, w.csrc) || p.Padding != w.pad || p.Extension != (w.kind != 0):
 						fail = "fixed fields decoded wrongly"
 					case !bytes.Equal(p.Payload, w.payload):
 						fail = "payload does not start right after the extension block"
@@ -366,6 +366,19 @@ func init() {
 					pendingFailures = append(pendingFailures, pendingFailure{line, fail, known})
 				}
 				emit(101, TList{TBytes(wire)})
+				// the same wire as the last of a run of well-formed wires decoded into ONE receiver
+				// (CSRC counts, extension kinds and padding vary from wire to wire)
+				hist = append(hist, wire)
+				if len(hist) > 4 {
+					hist = hist[1:]
+				}
+				if len(hist) >= 3 && c.Intn(2) == 0 {
+					seq := TList{}
+					for _, hw := range hist[len(hist)-3+c.Intn(2)*0:] {
+						seq = append(seq, TBytes(hw))
+					}
+					emit(101, seq)
+				}
 				// accepted mutations: re-encode stability only
 				if c.Intn(3) == 0 {
 					m := append([]byte{}, wire...)
@@ -412,4 +425,16 @@ func init() {
 		},
 		Run: run,
 	})
+}
+
+func u32Equal(a, b []uint32) bool {
+	if len(a) != len(b) {
+		return false
+	}
+	for i := range a {
+		if a[i] != b[i] {
+			return false
+		}
+	}
+	return true
 }
